@@ -151,10 +151,13 @@ pub enum Site {
     Tick = 14,
     /// Entry of a lazily-initialised process-wide table.
     LazyInit = 15,
+    /// Before an atomic operation of this crate, when it is compiled with the atomics-only
+    /// instrumentation of the simulator (the simulator's runtime calls `sched_point` itself).
+    AtomicOp = 16,
 }
 
 /// Number of `Site` variants.
-pub const SITE_COUNT: usize = 16;
+pub const SITE_COUNT: usize = 17;
 
 static SCHED_HOOK: AtomicUsize = AtomicUsize::new(0);
 
